@@ -1,0 +1,176 @@
+//go:build verif
+
+// Contracts for the deductive verifier in /verif (govc). Only compiled with -tags verif.
+
+package gadget
+
+import "github.com/snapcore/snapd/gadget/quantity"
+
+// ---- specification functions (mathematical integers: no wrap-around) -------------------
+
+//@ func specEnd
+//@   pure
+
+// end of structure i as the validator accounts for it: explicit offset + size, or the end of
+// the predecessor + size when the offset is not known
+func specEnd(vss []VolumeStructure, i int) quantity.Offset {
+	if i < 0 || i >= len(vss) {
+		return 0
+	}
+	s := vss[i]
+	if s.Offset != nil {
+		return *s.Offset + quantity.Offset(s.Size)
+	}
+	return specEnd(vss, i-1) + quantity.Offset(s.Size)
+}
+
+//@ func specMinEnd
+//@   pure
+
+// same with minimum sizes: what (*Volume).MinSize accumulates
+func specMinEnd(vss []VolumeStructure, i int) quantity.Offset {
+	if i < 0 || i >= len(vss) {
+		return 0
+	}
+	s := vss[i]
+	if s.Offset != nil {
+		return *s.Offset + quantity.Offset(s.MinSize)
+	}
+	return specMinEnd(vss, i-1) + quantity.Offset(s.MinSize)
+}
+
+//@ func specStart
+//@   pure
+
+// start of structure i as the validator accounts for it: its explicit offset, or the end of
+// its predecessor
+func specStart(vss []VolumeStructure, i int) quantity.Offset {
+	if i < 0 || i >= len(vss) {
+		return 0
+	}
+	s := vss[i]
+	if s.Offset != nil {
+		return *s.Offset
+	}
+	return specEnd(vss, i-1)
+}
+
+//@ func assert_
+//@   requires b
+
+// assert_ is a ghost assertion: its precondition is an obligation at every call.
+func assert_(b bool) {}
+
+// crossOK is the acceptance condition validateCrossVolumeStructure implements for overlap:
+// a structure with a known offset does not start before the end of its predecessor.
+//@ define crossOK(vss []VolumeStructure) = forall k int :: 0 <= k && k < len(vss) && vss[k].Offset != nil ==> specEnd(vss, k-1) <= *vss[k].Offset
+
+//@ func lemEndNonNeg
+//@   lemma
+//@   props C38
+//@   requires i < len(vss)
+//@   ensures 0 <= specEnd(vss, i)
+//@   decreases i + 1
+
+func lemEndNonNeg(vss []VolumeStructure, i int) {
+	if i < 0 {
+		return
+	}
+	assert_(vss[i].Size >= 0)
+	if vss[i].Offset != nil {
+		assert_(*vss[i].Offset >= 0)
+		return
+	}
+	lemEndNonNeg(vss, i-1)
+}
+
+//@ func lemDisjoint
+//@   lemma
+//@   props C38
+//@   requires crossOK(vss) && 0 <= i && i < j && j < len(vss)
+//@   ensures 0 <= specStart(vss, i) && specStart(vss, i) + vss[i].Size == specEnd(vss, i) && specEnd(vss, i) <= specStart(vss, j)
+//@   decreases j - i
+
+// under crossOK any two structures i < j occupy disjoint, increasing ranges
+func lemDisjoint(vss []VolumeStructure, i, j int) {
+	lemEndNonNeg(vss, i-1)
+	if vss[i].Offset != nil {
+		assert_(*vss[i].Offset >= 0)
+	}
+	if j == i+1 {
+		return
+	}
+	lemDisjoint(vss, i, j-1)
+	assert_(vss[j-1].Size >= 0)
+}
+
+//@ define sizesSane(vol *Volume) = len(vol.Structure) < 9223372036854775807 && forall i int :: 0 <= i && i < len(vol.Structure) ==> vol.Structure[i].Size < 9223372036854775808 && vol.Structure[i].MinSize < 9223372036854775808 && (vol.Structure[i].Offset != nil ==> *vol.Structure[i].Offset < 9223372036854775808) && (vol.Structure[i].OffsetWrite != nil ==> vol.Structure[i].OffsetWrite.Offset <= 4294967296)
+
+// MinSize accumulates in uint64 and may wrap for absurd sizes; it equals the mathematical
+// accumulation whenever that fits (validateCrossVolumeStructure rejects volumes where even the
+// accumulation of the full sizes does not fit).
+//@ func (*Volume).MinSize
+//@   props C38
+//@   arith wrap
+//@   requires v != nil
+//@   ensures specMinEndFits(v.Structure, len(v.Structure)-1) ==> result == specMinEnd(v.Structure, len(v.Structure)-1)
+//@   loop 0: invariant -1 <= idx0 && idx0 < len(v.Structure)
+//@   loop 0: invariant specMinEndFits(v.Structure, idx0) ==> endVol == specMinEnd(v.Structure, idx0)
+
+//@ func specMinEndFits
+//@   pure
+
+// every partial accumulation up to i fits in 64 bits
+func specMinEndFits(vss []VolumeStructure, i int) bool {
+	if i < 0 || i >= len(vss) {
+		return true
+	}
+	return specMinEnd(vss, i) <= 18446744073709551615 && specMinEndFits(vss, i-1)
+}
+
+//@ func validateOffsetWrite
+//@   props C38
+//@   arith checked
+//@   requires s != nil && firstStruct != nil
+//@   requires s.OffsetWrite != nil ==> s.OffsetWrite.Offset <= 4294967296
+//@   ensures (result == nil) == old(s.OffsetWrite == nil || (s.OffsetWrite.RelativeTo == "" && s.OffsetWrite.Offset + 4 <= volSize) || (s.OffsetWrite.RelativeTo != "" && s.OffsetWrite.RelativeTo == firstStruct.Name && firstStruct.Offset != nil && *firstStruct.Offset == 0 && s.OffsetWrite.Offset + 4 <= firstStruct.MinSize))
+
+//@ func layoutVSFromDiskData
+//@   props C38
+//@   requires volume != nil
+//@   requires forall y int :: has(gadgetToDiskStruct, y) ==> gadgetToDiskStruct[y] != nil && allocated(gadgetToDiskStruct[y])
+//@   ensures err == nil ==> len(sts) == len(volume.Structure)
+//@   ensures err == nil ==> forall k int :: 0 <= k && k < len(sts) ==> exists y int :: has(gadgetToDiskStruct, y) && sts[k].StartOffset == gadgetToDiskStruct[y].StartOffset && sts[k].Size == gadgetToDiskStruct[y].Size
+//@   loop 0: invariant -1 <= idx0 && idx0 < len(volume.Structure) && len(sts) == len(volume.Structure)
+//@   loop 0: invariant forall k int :: 0 <= k && k <= idx0 ==> exists y int :: has(gadgetToDiskStruct, y) && sts[k].StartOffset == gadgetToDiskStruct[y].StartOffset && sts[k].Size == gadgetToDiskStruct[y].Size
+
+//@ func layoutVolumeStructures
+//@   props C38
+//@   requires volume != nil
+//@   requires forall y int :: has(gadgetToDiskStruct, y) ==> gadgetToDiskStruct[y] != nil && allocated(gadgetToDiskStruct[y])
+//@   ensures err == nil ==> len(structures) == len(volume.Structure)
+//@   ensures err == nil ==> forall k int :: 0 <= k && k < len(structures) ==> exists y int :: has(gadgetToDiskStruct, y) && structures[k].StartOffset == gadgetToDiskStruct[y].StartOffset && structures[k].Size == gadgetToDiskStruct[y].Size
+
+//@ func getImageSize
+//@   trusted
+//@   assigns nothing
+//@   ensures result0 < 9223372036854775808
+
+//@ define contentSane(ps *LaidOutStructure) = ps.StartOffset < 9223372036854775808 && ps.VolumeStructure.Size < 9223372036854775808 && forall i int :: 0 <= i && i < len(ps.VolumeStructure.Content) ==> ps.VolumeStructure.Content[i].Size < 9223372036854775808 && (ps.VolumeStructure.Content[i].Offset != nil ==> *ps.VolumeStructure.Content[i].Offset < 9223372036854775808)
+
+//@ func layOutStructureContent
+//@   props C38
+//@   arith wrap
+//@   requires ps != nil && ps.VolumeStructure != nil && contentSane(ps)
+//@   guard call sort.Sort: [inside] forall k int :: 0 <= k && k < len(content) ==> ps.StartOffset <= content[k].StartOffset && content[k].StartOffset + content[k].Size <= ps.StartOffset + ps.VolumeStructure.Size
+//@   guard call sort.Sort: [all] len(content) == len(ps.VolumeStructure.Content)
+//@   ensures [count] result1 == nil ==> len(result0) == 0 || len(result0) == old(len(ps.VolumeStructure.Content))
+//@   ensures [first] result1 == nil && len(result0) > 0 ==> ps.StartOffset <= result0[0].StartOffset
+//@   ensures [chain] result1 == nil ==> forall k int :: 1 <= k && k < len(result0) ==> (result0[k-1].StartOffset + result0[k-1].Size) % 18446744073709551616 <= result0[k].StartOffset
+//@   loop 0: invariant -1 <= idx0 && idx0 < len(ps.VolumeStructure.Content) && len(content) == len(ps.VolumeStructure.Content) && contentSane(ps)
+//@   loop 0: invariant (idx0 == -1 && previousEnd == 0) || previousEnd <= ps.VolumeStructure.Size
+//@   loop 0: invariant forall k int :: 0 <= k && k <= idx0 ==> ps.StartOffset <= content[k].StartOffset && content[k].StartOffset + content[k].Size <= ps.StartOffset + ps.VolumeStructure.Size
+//@   loop 1: invariant -1 <= idx1 && idx1 < len(content)
+//@   loop 1: invariant idx1 == -1 ==> previousEnd == ps.StartOffset
+//@   loop 1: invariant idx1 >= 0 ==> previousEnd == (content[idx1].StartOffset + content[idx1].Size) % 18446744073709551616 && ps.StartOffset <= content[0].StartOffset
+//@   loop 1: invariant forall k int :: 1 <= k && k <= idx1 ==> (content[k-1].StartOffset + content[k-1].Size) % 18446744073709551616 <= content[k].StartOffset
